@@ -138,7 +138,7 @@ func refHOTP(key []byte, ctr uint64, digits, alg int) string {
 	return string(s)
 }
 
-var editKinds = []string{"exact", "flip", "droplast", "dropfirst", "append0", "prespace", "postnl", "plus", "arabic", "fullwidth", "empty", "junk", "trunc1"}
+var editKinds = []string{"exact", "flip", "droplast", "dropfirst", "append0", "prespace", "postnl", "plus", "arabic", "fullwidth", "empty", "junk", "trunc1", "fliplast", "flipfirst", "postnul", "double"}
 
 func (c *ctx) edit(code, kind string) string {
 	switch kind {
@@ -152,6 +152,24 @@ func (c *ctx) edit(code, kind string) string {
 		i := c.rng.Intn(len(b))
 		b[i] = '0' + (b[i]-'0'+1+byte(c.rng.Intn(9)))%10
 		return string(b)
+	case "fliplast":
+		if code == "" {
+			return "0"
+		}
+		b := []byte(code)
+		b[len(b)-1] = '0' + (b[len(b)-1]-'0'+1+byte(c.rng.Intn(9)))%10
+		return string(b)
+	case "flipfirst":
+		if code == "" {
+			return "0"
+		}
+		b := []byte(code)
+		b[0] = '0' + (b[0]-'0'+1+byte(c.rng.Intn(9)))%10
+		return string(b)
+	case "postnul":
+		return code + "\x00"
+	case "double":
+		return code + code
 	case "droplast":
 		if code == "" {
 			return code
